@@ -187,6 +187,49 @@ def run_case(ctx, case):
                     scan_result(ctx, r, 'derive')
                     if r.error is not None or not r.ok():
                         ctx.count('failure_paths_logged')
+            # 2b. secrets the server generates itself (Create, CreateKeyPair, DeriveKey): the creating item is followed, in
+            # the same batch, by identifier-less items and a failing item; the generated values are read back afterwards and
+            # looked for in everything that was logged or answered meanwhile
+            base_u = uids.get('sym', (None, None))[0]
+            for gi, first in enumerate((op_create(names=['c20-gen-%d' % case['run']]), op_create_key_pair(),
+                                        op_derive_key([base_u], attributes_list=sym_attrs(length=128, masks=ALL_MASKS)) if base_u else None,
+                                        op_derive_key([base_u], object_type=E.ObjectType.SECRET_DATA, attributes_list=[
+                                            rig.attr(E.AttributeType.CRYPTOGRAPHIC_LENGTH, 128),
+                                            rig.attr(E.AttributeType.CRYPTOGRAPHIC_USAGE_MASK, ALL_MASKS)]) if base_u else None)):
+                if first is None:
+                    continue
+                ctx.scan.clear_recent()
+                v = rng.choice(((1, 2), (1, 4), (1, 0)))
+                # (identifier-less Activate / Revoke / Destroy payloads cannot be decoded by this library; the reading
+                # operations can)
+                follow = [op_get(None), op_get_attribute_list(None), op_get_attributes(None), op_get(None, fmt=E.KeyFormatType.PKCS_12),
+                          op_get('no-such-%d' % gi), op_get_attributes(None, ['Name', 'State'])]
+                rng.shuffle(follow)
+                try:
+                    rb = srv.send([first] + follow[:4], a, v, error_option=E.BatchErrorContinuationOption.CONTINUE)
+                except Exception:
+                    continue
+                ctx.ev()
+                if rb.error is not None or not rb.items or rb.items[0]['status'] != 0:
+                    continue
+                ctx.count('generated_secret_batches')
+                made = [it_[2] for _, it_ in T.walk(rb.tree) if it_[0] in (T.T_UNIQUE_IDENTIFIER, 0x420066, 0x42006F) and it_[1] == T.TEXT]
+                msgs = [it_['message'] for it_ in rb.items if it_['message']]
+                for gu in sorted(set(made)):
+                    g = srv.send([op_get(gu)], a, (1, 2))
+                    if g.error is not None or not g.ok():
+                        continue
+                    for _, it_ in T.walk(g.payload()):
+                        if it_[0] == 0x420043 and it_[1] == T.BYTES and len(it_[2]) >= 12:
+                            ctx.count('generated_values_read_back')
+                            before = len(ctx.scan.hits)
+                            ctx.scan.plant_late(it_[2], 'generated-value')
+                            for m_ in msgs:
+                                hit = ctx.scan.scan_text(m_)
+                                if hit and hit[0] == 'generated-value':
+                                    ctx.violation('result-message|batch-after-generation|generated-value',
+                                                  'a result message of the batch that generated a secret contains that secret: %r'
+                                                  % m_[:160], None)
             # 3. reads, refusals and the known internal-error paths on canary objects
             for kind, (u, val) in uids.items():
                 for ident in (a, ('bob', None)):
